@@ -35,4 +35,6 @@ sys.exit(1 if missing else 0)
 PY
 rc=$?
 rm -f "$out"
+# tests hidden behind sandbox aborts (not part of the stable list, but must not be broken by a repair)
+/verif/scripts/hidden_tests.sh "$PWD" || rc=1
 exit $rc
